@@ -124,6 +124,7 @@ def main():
     meta.update({
         "C16-locked-memo-published-before-filled": ["C16"],
         "C16-lock-order-deadlock": ["C16"],
+        "C16-semaphore-token-leaked-on-panic-path": ["C16", "C09"],
     })
     import json
     json.dump(meta, open(os.path.join(OUT, "expect.json"), "w"), indent=1, sort_keys=True)
